@@ -53,7 +53,7 @@ STANDINS = {
 }
 
 
-def slice_replay(standins=STANDINS, slicepkg='internal/zzslice', extra_roots=()):
+def slice_replay(standins=STANDINS, slicepkg='internal/zzslice', extra_roots=(), inpkg=None):
     """R2 replay: verbatim declaration slice of the package (function bodies
     byte-identical to the working tree) compiled natively against Go stand-ins
     of the FFI leaf packages, run on the model."""
@@ -66,6 +66,8 @@ def slice_replay(standins=STANDINS, slicepkg='internal/zzslice', extra_roots=())
                '--root', h, '--root', 'nd_failed', '--root', 'nd_assumeFailed']
         for r in extra_roots:
             cmd += ['--root', r]
+        if inpkg:
+            cmd += ['--skip-bodiless']
         if job.tags:
             cmd += ['--tags', job.tags]
         for v, r in job.overlays():
@@ -82,6 +84,10 @@ def slice_replay(standins=STANDINS, slicepkg='internal/zzslice', extra_roots=())
         if rc != 0:
             return 2, 'slice failed: ' + log
         ov[os.path.join(moddir, slicepkg, 'slice.go')] = out
+        if inpkg:
+            ov[os.path.join(moddir, slicepkg, 'zz_standin_inpkg.go')] = os.path.join(ctx_verif(), 'harness', 'standins', inpkg)
+            # the in-package stand-in imports the scheduler stand-in
+            ov[os.path.join(moddir, 'internal/zzstand/psync/sync.go')] = os.path.join(ctx_verif(), 'harness', 'standins', 'psync', 'sync.go')
         ov[os.path.join(moddir, slicepkg, 'zz_replay_test.go')] = test
         ovf = os.path.join(d, 'ov.json')
         json.dump({'Replace': ov}, open(ovf, 'w'))
@@ -361,5 +367,9 @@ def librt_job(ctx, name, files, **kw):
 @prop('C11', level='model_checking', title='semaphores, notify lists, atomics under contention')
 def c11(ctx):
     q = ctx.quick
-    return [librt_job(ctx, 'sema', [H(ctx, 'C11', 'sema_h.go')], unwind=30, deadline_s=900 if q else 3000,
-                      extra=['--spurious', '0' if q else '1', '--sched-steps', '300', '--preempt', '2' if q else '3'])]
+    C = _check()
+    ex = ['--spurious', '0' if q else '1', '--sched-steps', '300', '--preempt', '2' if q else '3']
+    value = C.GJob('value', os.path.join(ctx.repo, 'runtime'), './internal/lib/sync/atomic', 'atomic',
+                   os.path.join(ctx.repo, 'runtime/internal/lib/sync/atomic'), [H(ctx, 'C11', 'value_h.go')], tags='llgo', unwind=30,
+                   deadline_s=900 if q else 3000, extra=ex, replay=slice_replay(inpkg='latomic_inpkg.go'))
+    return [librt_job(ctx, 'sema', [H(ctx, 'C11', 'sema_h.go')], unwind=30, deadline_s=900 if q else 3000, extra=ex), value]
